@@ -17,8 +17,9 @@ if [ -f "$dir/demo.py" ]; then
 fi
 mkdir -p "$out"
 for p in $pid $others; do
-  (cd /verif && BIOM_REPO="$wt" VERIF_OUT="$out" ./check "$p" --tier quick 2>&1 | grep -E "VIOLATION|KNOWN-FINDING|quick:" | cut -c1-300)
-  echo "SEED check $p: exit $?"
+  (cd /verif && BIOM_REPO="$wt" VERIF_OUT="$out" ./check "$p" --tier quick >"$out/log.$p" 2>&1); rc=$?
+  grep -E "VIOLATION|KNOWN-FINDING|quick:" "$out/log.$p" | cut -c1-300
+  echo "SEED check $p: exit $rc"
 done
 if [ -n "$KEEP_REPLAY" ]; then mkdir -p "$KEEP_REPLAY"; cp "$out"/replays/* "$KEEP_REPLAY"/ 2>/dev/null; fi
 git -C /repo worktree remove --force "$wt"; rm -rf "$out"
